@@ -206,7 +206,10 @@ def handle (req : Json) : R Json := do
     let a ← jlist kv
     return (← jstr (← jidx a 0), ← parseVal (← jidx a 1))
   let ops ← jlist (jgetD req "ops" (.arr #[]))
-  match construct s args kwargs with
+  let ann ← (← jlist (jgetD req "ann" (.arr #[]))).mapM fun nt => do
+    let a ← jlist nt
+    return (← jstr (← jidx a 0), ← (← jlist (← jidx a 1)).mapM jnat)
+  match construct s args kwargs (ann := ann) with
   | none => return mkObj [("init", errJson), ("steps", .arr #[])]
   | some c0 =>
     let initObs := observe s c0
